@@ -49,6 +49,7 @@ inductive Query where
   | rel (f : E) (ge : Bool)        -- `f >= 0` (ge) or `f <= 0`
   | range (f : E) (s : Nat)
   | norm (f : E)
+  | corner (f : E) (lt : Bool) (hi : Bool)
   | doit (f : E)
   | expand (f : E)
   | diff (f : E) (s : Nat)
@@ -67,6 +68,8 @@ structure Oracle where
   rel : E → Bool → Option (Option Bool)
   range : E → Nat → Option RangeAns
   norm : E → Option E
+  /-- `v = f.subs(corner); v.is_number and (v < 0 | v > 0)`: `some (some true)` = contradicted, `some none` = TypeError -/
+  corner : E → Bool → Bool → Option (Option Bool)
   doit : E → Option E
   expand : E → Option E
   diff : E → Nat → Option E
@@ -77,6 +80,8 @@ def askRange (o : Oracle) (f : E) (s : Nat) : M RangeAns :=
   match o.range f s with | some a => .ok a | none => .error (.need (.range f s))
 def askNorm (o : Oracle) (f : E) : M E :=
   match o.norm f with | some a => .ok a | none => .error (.need (.norm f))
+def askCorner (o : Oracle) (f : E) (lt hi : Bool) : M (Option Bool) :=
+  match o.corner f lt hi with | some a => .ok a | none => .error (.need (.corner f lt hi))
 def askDoit (o : Oracle) (f : E) : M E :=
   match o.doit f with | some a => .ok a | none => .error (.need (.doit f))
 def askExpand (o : Oracle) (f : E) : M E :=
@@ -102,22 +107,69 @@ def allE (g : E → M Bool) : List E → M Bool
     | .ok true => allE g xs
     | .ok false => .ok false
 
-/-- Switches for the two defects of the as-is code that have a one-line repair; `Cfg.asIs` is the code
-in /repo today, `Cfg.repaired` the code with both repairs. The harness reports which one the
-current tree matches. -/
+/-- Switches for the repairs made to the comparator. `Cfg.repaired` is the code in /repo today (THE model);
+`Cfg.asIs` is the code as it was when the defects were found (kept for the counterexample theorems and so
+that the harness can tell which behaviour a tree shows). -/
 structure Cfg where
-  /-- `if terms_do_not_cross_zero and lt_zero: return LEQ` / `… and gt_zero: return GEQ` are present -/
+  /-- `if terms_do_not_cross_zero and lt_zero: return LEQ` / `… and gt_zero: return GEQ` are present (old) -/
   tdnczEarly : Bool
-  /-- `expr_replace(f, Heaviside, 1)` returns a Python int when `f` IS a Heaviside term (→ AttributeError) -/
+  /-- `expr_replace(f, Heaviside, 1)` returns a Python int when `f` IS a Heaviside term (→ AttributeError) (old) -/
   heavIntCrash : Bool
+  /-- `partition_heaviside` assigns 0/1 to every DISTINCT Heaviside term (new) instead of all-1 / all-0 (old) -/
+  heavPerAtom : Bool
+  /-- a decided "never negative / never positive" relational is only kept if it survives both corners of the box (new) -/
+  relCorner : Bool
   deriving Repr, DecidableEq
 
-def Cfg.asIs : Cfg := ⟨true, true⟩
-def Cfg.repaired : Cfg := ⟨false, false⟩
+def Cfg.asIs : Cfg := ⟨true, true, false, false⟩
+def Cfg.repaired : Cfg := ⟨false, false, true, true⟩
 
 def isHeav : E → Bool
   | .heav _ => true
   | _ => false
+
+/-- `partition_heaviside(f)` for a formula with Heaviside terms -/
+def partsOf (cfg : Cfg) (f1 : E) : List E :=
+  if cfg.heavPerAtom then heavParts f1 else [setHeav 1 f1, setHeav 0 f1]
+
+/-- rebuild every part (sympy's automatic evaluation), in order -/
+def normAll (o : Oracle) : List E → M (List E)
+  | [] => .ok []
+  | p :: ps =>
+    match askNorm o p with
+    | .error e => .error e
+    | .ok a =>
+      match normAll o ps with
+      | .error e => .error e
+      | .ok as => .ok (a :: as)
+
+/-- the part of `_compare_to_zero` after the relational shortcut: Min/Max rules, then the range recursion -/
+def rest (o : Oracle) (box : Box) (rec : E → M Bool) (f1 : E) (lt : Bool) : M Bool :=
+  match f1 with
+  | .min xs => if lt then anyE rec xs else allE rec xs
+  | .max xs => if lt then allE rec xs else anyE rec xs
+  | _ =>
+    match chooseSym f1 with
+    | none => .error (.exc "no free symbol")
+    | some s =>
+      if box.length ≤ s then .error (.exc "symbol not in bounds") else
+      match askRange o f1 s with
+      | .error e => .error e
+      | .ok .fail => .ok true
+      | .ok (.finite l) => anyE rec l
+      | .ok (.interval lo hi) => rec (if lt then lo else hi)
+
+/-- does a decided relational survive the corner `hi`? (`some true` = contradicted at that corner;
+`none` = the comparison raised TypeError, which the code treats like an undecided relational) -/
+def cornersPass (o : Oracle) (f1 : E) (lt : Bool) : M Bool :=
+  match askCorner o f1 lt false with
+  | .error e => .error e
+  | .ok (some false) =>
+    match askCorner o f1 lt true with
+    | .error e => .error e
+    | .ok (some false) => .ok true
+    | .ok _ => .ok false
+  | .ok _ => .ok false
 
 /-- One activation of `_compare_to_zero(f, bounds, check_lt_zero = lt)`; `rec g` is the recursive call
 `_compare_to_zero(g, bounds, lt)`.
@@ -132,35 +184,24 @@ def step (cfg : Cfg) (o : Oracle) (box : Box) (rec : E → M Bool) (f : E) (lt :
   | .error e => .error e
   | .ok f1 =>
     if hasHeav f1 then
-      -- fs = partition_heaviside(f); any(_compare_to_zero(f2, …) for f2 in fs).
-      -- `f.replace(Heaviside ↦ 1)` on a formula that IS a Heaviside term yields the Python int 1 and the
-      -- recursive call dies in `f.doit()`.
+      -- fs = partition_heaviside(f); any(_compare_to_zero(f2, …) for f2 in fs)
       if cfg.heavIntCrash && isHeav f1 then .error (.exc "AttributeError") else
-      match askNorm o (setHeav 1 f1) with
+      match normAll o (partsOf cfg f1) with
       | .error e => .error e
-      | .ok a =>
-        match askNorm o (setHeav 0 f1) with
-        | .error e => .error e
-        | .ok b => anyE rec [a, b]
+      | .ok parts => anyE rec parts
     else
-      -- try: return not f >= 0   /   return not f <= 0     except TypeError: pass
+      -- try: decided = not f >= 0 (resp. not f <= 0) … except TypeError: pass
       match askRel o f1 lt with
       | .error e => .error e
-      | .ok (some ans) => .ok (!ans)
-      | .ok none =>
-        match f1 with
-        | .min xs => if lt then anyE rec xs else allE rec xs
-        | .max xs => if lt then allE rec xs else anyE rec xs
-        | _ =>
-          match chooseSym f1 with
-          | none => .error (.exc "no free symbol")
-          | some s =>
-            if box.length ≤ s then .error (.exc "symbol not in bounds") else
-            match askRange o f1 s with
-            | .error e => .error e
-            | .ok .fail => .ok true
-            | .ok (.finite l) => anyE rec l
-            | .ok (.interval lo hi) => rec (if lt then lo else hi)
+      | .ok (some ans) =>
+        if !ans then .ok true
+        else if !cfg.relCorner then .ok false
+        else
+          match cornersPass o f1 lt with
+          | .error e => .error e
+          | .ok true => .ok false
+          | .ok false => rest o box rec f1 lt
+      | .ok none => rest o box rec f1 lt
 
 /-- `_compare_to_zero(f, bounds, check_lt_zero = lt)` -/
 def compare (cfg : Cfg) (o : Oracle) (box : Box) : Nat → E → Bool → M Bool
